@@ -63,6 +63,10 @@ class SeqRunner:
         self.dead = None
         self.processes = 0
         self.probe_peeks = False
+        self.on_spawn = None      # callback(runner) right after a worker process was started (crash arming, tracing)
+        self.on_close = None      # callback(runner) right before a live worker process is shut down
+        self.on_step = None       # callback(runner, op index, op) after every program op
+        self.last_inflight = None
 
     # ------------------------------------------------------------------ plumbing
     def stat(self, k, n=1):
@@ -71,9 +75,17 @@ class SeqRunner:
     def spawn(self):
         self.w = Wsrv(self.binary, timeout=self.timeout, env=self.env, prefix=self.prefix, stderr_path=self.stderr_path)
         self.processes += 1
+        self.last_inflight = None
+        if self.on_spawn:
+            self.on_spawn(self)
 
     def close(self):
         if self.w:
+            if self.on_close and self.dead is None:
+                try:
+                    self.on_close(self)
+                except Dead:
+                    pass
             self.w.close()
             self.w = None
 
@@ -90,6 +102,7 @@ class SeqRunner:
             return self.w.send(req)
         except Dead as d:
             self.dead = d
+            self.last_inflight = req
             self.finding('dead', 'timeout' if d.code is None else f'exit({d.code})', f'worker died during {req}', req=req)
             raise Halt()
 
@@ -521,6 +534,8 @@ class SeqRunner:
                 self.inst[h].markers_touched_this_life = {}
             for self.opi, op in enumerate(prog['ops']):
                 self.step(op)
+                if self.on_step:
+                    self.on_step(self, self.opi, op)
         except Halt:
             pass
         finally:
